@@ -303,6 +303,8 @@ impl C17 {
         let n = ALPHABET.len() as u64;
         let mut r = Rng::for_case(ctx.seed, 1700 + f as u64, i);
         let s = match name {
+            // (interpreted by Miri, the sessions with tens of kilobytes of code would take hours)
+            "directed" if ctx.flavour == Flavour::Miri && directed()[i as usize].1.iter().any(|t| t.len() > 5_000) => vec![Line { text: "1".to_string(), budget: None }],
             "directed" => directed()[i as usize].1.iter().map(|t| Line { text: t.to_string(), budget: None }).collect(),
             "len-1" => Self::alphabet_session(i, 1),
             "len-2" => Self::alphabet_session(i, 2),
@@ -521,7 +523,26 @@ pub fn directed() -> Vec<(&'static str, Vec<&'static str>)> {
         ("redeclare-across-lines", vec!["stel a = 1", "stel a = \"twee\"", "a"]),
         ("many-lines", vec!["stel n = 0", "n += 1", "n += 1", "n += 1", "n += 1", "n += 1", "n += 1", "n += 1", "n += 1", "n += 1", "n"]),
         ("print-across", vec!["stel a = 1", "print(\"a={}\", a)", "a = 2; print(\"a={}\", a)", "a"]),
+        // functions made inside a top-level block that use a name of that block (or their own), kept in an earlier global
+        ("function-from-a-block-kept-in-an-earlier-global", vec!["stel uit = 0", "als ja { functie fac(n) { als n < 2 { 1 } anders { n * fac(n - 1) } } uit = fac }", "uit(5)", "stel g = 0", "{ stel t = 7; g = functie() { t } }", "g()", "1 + 1", "[uit(3), g()]"]),
+        ("function-from-a-loop-body-kept-in-an-array", vec!["stel fs = [0, 0, 0]", "stel i = 0", "zolang i < 3 { stel stap = i * 10; functie plus(x) { x + 1 } fs[i] = plus; i += 1 }", "stel f = fs[2]", "f(4)", "stel nieuw = 5", "f(nieuw)"]),
+        // a line typed again after it was refused: the same function literal at the same place
+        ("retyped-after-a-compile-error-then-much-code", vec!["stel f = functie() { 1 }; onbekend", "stel g = functie() { 42 }", bulk_array(), "stel x = 7", "g()", "[x, g(), lengte(groot)]"]),
+        ("retyped-after-a-run-time-error-then-much-code", vec!["stel f = functie() { 1 }; [1][5]", "stel g = functie() { 42 }", bulk_statements(), "stel x = 7", "g()", "f()", "[x, g(), f()]"]),
+        // more code than a 16-bit offset can address, in one session
+        ("calls-behind-64k-of-code", vec!["functie som(a, b) { a + b }", bulk_statements(), bulk_statements(), "som(20, 1)", "stel i = 0; zolang i < 3 { i += 1 }; i", "functie laat(x) { als x > 1 { antwoord x * 2 }; x }", "[laat(1), laat(2), som(1, 2)]", bulk_array(), "stel j = 0; stel n = 0; zolang j < 4 { j += 1; als j == 2 { volgende }; als j == 4 { stop }; n += 1 }; [j, n, laat(5)]"]),
+        ("functions-on-both-sides-of-much-code", vec!["stel a = functie(x) { x + 1 }", bulk_statements(), "stel b = functie(x) { a(x) * 2 }", bulk_statements(), "stel c = functie(x) { b(x) - 1 }", bulk_statements(), "[a(1), b(1), c(1)]", "a = functie(x) { x + 100 }", "[a(1), b(1), c(1)]"]),
     ]
+}
+
+/// one line of 9 000 statements (36 KB of code) / one declaration of an 11 000-element array literal (33 KB of code)
+fn bulk_statements() -> &'static str {
+    static S: std::sync::OnceLock<String> = std::sync::OnceLock::new();
+    S.get_or_init(|| format!("{}8", "0; ".repeat(9_000))).as_str()
+}
+fn bulk_array() -> &'static str {
+    static S: std::sync::OnceLock<String> = std::sync::OnceLock::new();
+    S.get_or_init(|| format!("stel groot = [{}0]", "1, ".repeat(10_999))).as_str()
 }
 
 fn random_session(r: &mut Rng) -> Vec<Line> {
@@ -542,8 +563,45 @@ fn random_session(r: &mut Rng) -> Vec<Line> {
                 ints[r.below(ints.len() as u64) as usize].clone()
             }
         };
-        let k = r.below(46);
+        let k = r.below(50);
         let text = match k {
+            // a line that is refused (compile time) or fails (run time) after a function literal, then typed again
+            46 => {
+                fresh += 1;
+                let name = format!("fn{}", fresh);
+                let body = r.range(1, 9);
+                let bad = if r.chance(1, 2) { format!("stel {} = functie(x) {{ x + {} }}; onbekend_{}", name, body, fresh) } else { format!("stel {} = functie(x) {{ x + {} }}; [1][7]", name, body) };
+                lines_text.push(bad.clone());
+                lines.push(Line { text: bad, budget: None });
+                fresh += 1;
+                let name2 = if r.chance(1, 2) { name.clone() } else { format!("fn{}", fresh) };
+                let t = format!("stel {} = functie(x) {{ x + {} }}", name2, if r.chance(1, 2) { body } else { r.range(1, 9) });
+                fns.push(name2);
+                t
+            }
+            // much code in one line (the session's code grows past 32 KiB, 64 KiB, …)
+            47 => {
+                if r.chance(1, 2) {
+                    bulk_statements().to_string()
+                } else {
+                    fresh += 1;
+                    format!("stel bulk{} = [{}0]; lengte(bulk{})", fresh, "1, ".repeat(10_999), fresh)
+                }
+            }
+            // a function made inside a top-level block, using a name of that block, kept in an earlier global
+            48 | 49 => {
+                fresh += 1;
+                let name = format!("fn{}", fresh);
+                let decl = format!("stel {} = 0", name);
+                lines_text.push(decl.clone());
+                lines.push(Line { text: decl, budget: None });
+                fns.push(name.clone());
+                if k == 48 {
+                    format!("{{ stel erbij{} = {}; {} = functie(x) {{ x + erbij{} }} }}", fresh, r.range(1, 9), name, fresh)
+                } else {
+                    format!("als ja {{ functie hulp{}(n) {{ als n < 1 {{ 0 }} anders {{ n + hulp{}(n - 1) }} }} {} = hulp{} }}", fresh, fresh, name, fresh)
+                }
+            }
             // functions held by globals: declared, replaced by a line that declares nothing, stored into an array, called later
             37 => {
                 fresh += 1;
@@ -727,9 +785,21 @@ impl C17 {
             Flavour::Asan | Flavour::Miri => (ShadowMode::Off, false),
             _ => (ShadowMode::Quarantine, true),
         };
-        let (obs_lines, events) = run_session_real(lines, shadow, probes);
+        let (mut obs_lines, events) = run_session_real(lines, shadow, probes);
         st.evaluations += 1;
         st.add("lines", obs_lines.len() as u64);
+        // Jump operands are 16-bit positions in the session's code: once a session holds more than 64 KiB of code, a line
+        // with a branch or a loop is refused with the documented limit error (`programma is te groot`) — exactly as it
+        // would be as the last line of the one program. The session is judged up to the first such line.
+        let mut lines = lines;
+        if let Some(l) = obs_lines.iter().position(|o| matches!(&o.outcome, Outcome::Error(crate::val::ErrKind::Syntax, m) if m.contains("programma is te groot"))) {
+            let code_so_far: usize = lines[..l].iter().map(|x| x.text.len()).sum();
+            if code_so_far > 40_000 {
+                st.count("sessions-judged-up-to-the-code-size-limit");
+                lines = &lines[..l];
+                obs_lines.truncate(l);
+            }
+        }
         // a line without a cut that ran into the runaway bound: a generated loop that does not end — not a session to judge
         if obs_lines.iter().zip(lines.iter()).any(|(o, l)| l.budget.is_none() && matches!(o.outcome, Outcome::Budget)) {
             st.count("sessions-not-judged:runaway-line");
@@ -801,10 +871,31 @@ impl C17 {
             }
         }
         // (1) metamorphic: no run-time failure, no cut -> each successful line equals the last line of the concatenation
-        if ok && cut_lines.is_empty() && !obs_lines.iter().any(|o| o.stage == "run" && matches!(o.outcome, Outcome::Error(..))) {
+        // (a line that fails at run time is compared as well — as the last line of the one program it must fail alike — and
+        //  ends the comparison: what it assigned before failing is the model's business)
+        if ok && cut_lines.is_empty() {
             let mut program = String::new();
             let mut printed = 0usize;
             for (i, o) in obs_lines.iter().enumerate() {
+                let failed_at_run_time = o.stage == "run" && matches!(o.outcome, Outcome::Error(..));
+                if failed_at_run_time {
+                    let whole = obs::eval_observed(&format!("{}{}", program, lines[i].text), &obs::ObsCfg::default());
+                    st.count("metamorphic-comparisons:failing-line");
+                    let new_out: Vec<String> = whole.output.iter().skip(printed).cloned().collect();
+                    let same = match (&whole.outcome, &o.outcome) {
+                        (Outcome::Error(a, _), Outcome::Error(b, _)) => a == b && new_out == o.output,
+                        _ => false,
+                    };
+                    if !same {
+                        st.violation(
+                            &format!("{}:failing-line-differs-from-one-program", fam),
+                            format!("line {} gave {} with output {:?}; as the last line of one program made of the successful lines it gives {} with new output {:?}", i + 1, o.outcome.render(), o.output, whole.outcome.render(), new_out),
+                            &text,
+                        );
+                        ok = false;
+                    }
+                    break;
+                }
                 if !matches!(o.outcome, Outcome::Value(_)) {
                     continue;
                 }
